@@ -22,6 +22,16 @@ fn run_q(cap: usize, env: &Env, pauses: &[u8], input: &[u8]) -> RunOut {
     }
 }
 
+fn proc_q(cap: usize, env: &Env, stream: &[u8], reads: &[usize]) -> vrun::ProcOut {
+    match cap {
+        1 => vrun::process::<fixture::fx::I<1>, 4096>(Some(env), &[], stream, reads, None),
+        2 => vrun::process::<fixture::fx::I<2>, 4096>(Some(env), &[], stream, reads, None),
+        3 => vrun::process::<fixture::fx::I<3>, 4096>(Some(env), &[], stream, reads, None),
+        4 => vrun::process::<fixture::fx::I<4>, 4096>(Some(env), &[], stream, reads, None),
+        _ => vrun::process::<fixture::fx::I<10>, 4096>(Some(env), &[], stream, reads, None),
+    }
+}
+
 fn hdr(abs: bool, mnems: &[&str], query: bool) -> Header {
     Header {
         absolute: abs,
@@ -33,7 +43,7 @@ fn hdr(abs: bool, mnems: &[&str], query: bool) -> Header {
 const N_OPS: usize = 12;
 /// operations only used by the random part: queue queries carrying a surplus parameter (must be
 /// rejected without touching the queue)
-const N_OPS_RANDOM: usize = 14;
+const N_OPS_RANDOM: usize = 15;
 const OP_NAMES: [&str; N_OPS] = [
     "syntax error", "undefined header", "parameter count", "data type", "out of range", "handler custom error",
     "handler standard error", "SYST:ERR?", "SYST:ERR:NEXT?", "SYST:ERR:COUN?", "valid command", "valid query",
@@ -75,6 +85,20 @@ fn op_unit(op: usize) -> (Unit, UnitKind) {
         10 => (Unit::new(hdr(false, &["*RST"], false), vec![]), UnitKind::Normal),
         12 => (Unit::new(hdr(true, &["SYST", "ERR"], true), vec![Lit::Dec("1".into())]), UnitKind::Normal),
         13 => (Unit::new(hdr(true, &["SYST", "ERR", "COUN"], true), vec![s("x")]), UnitKind::Normal),
+        // a valid command whose string payload contains a newline (process executes the message piecewise)
+        14 => (
+            Unit::new(
+                hdr(true, &["SYST", "B"], false),
+                vec![
+                    s("a\nb"),
+                    Lit::Block {
+                        ndig: 1,
+                        body: b"\n".to_vec(),
+                    },
+                ],
+            ),
+            UnitKind::Normal,
+        ),
         _ => (Unit::new(hdr(true, &["A"], true), vec![]), UnitKind::Normal),
     }
 }
@@ -192,7 +216,7 @@ fn random_prop(model: &Model, tape: &[u32], st: &mut Stats) -> Result<(), String
     let mut interleaved = false;
     let mut ops_done = 0;
     while ops_done < n_ops {
-        let op = t.weighted(&[2, 2, 2, 2, 2, 2, 2, 3, 3, 3, 1, 1, 1, 1]);
+        let op = t.weighted(&[2, 2, 2, 2, 2, 2, 2, 3, 3, 3, 1, 1, 1, 1, 1]);
         debug_assert!(op < N_OPS_RANDOM);
         let (mut u, k) = op_unit(op);
         // relative forms: after SYST:ERR:NEXT? the queue queries can be addressed relative
@@ -224,6 +248,24 @@ fn random_prop(model: &Model, tape: &[u32], st: &mut Stats) -> Result<(), String
         kinds.push(cur_k);
     }
     let (overflow, read_back) = check_sequence(model, cap, &msgs, &kinds, &env, st)?;
+    // the same history streamed through process (the queue answers must be the same bytes)
+    {
+        let stream = render_all(&msgs);
+        let pred = gen::predict(model, &msgs, Some(&kinds), &env);
+        let reads = vrun::props::gen_reads(&mut t, stream.len(), 4096);
+        let po = proc_q(cap, &env, &stream, &reads);
+        let (_, written) = vrun::observation(&po.log, &[]);
+        gen::match_log(
+            &pred,
+            &po.log,
+            &MatchCfg {
+                responses_in_log: false,
+                output: Some(written),
+                qcap: cap,
+            },
+        )
+        .map_err(|e| format!("capacity {}: process::<4096>('{}'): {} [log: {}]", cap, esc(&stream), e, show_log(&po.log)))?;
+    }
     if overflow {
         st.class("sequence with overflow");
     }
